@@ -257,7 +257,7 @@ for _pid, _what in (("C01", "the effective RP ID is the one the credential is st
                     ("C04", "userVerification maps to the verification asked of the user; an authenticator that cannot verify refuses preferred / required"),
                     ("C05", "the store is asked for exactly the ids the request names; an exclude list naming the credential refuses the registration"),
                     ("C11", "residentKey / requireResidentKey mapping, credProps, user handle returned exactly when stored")):
-    _SWEEPS.setdefault(_pid, []).append(("client-ceremonies", _pid, "192 registrations (2 store capabilities x 4 residentKey x requireResidentKey x 3 userVerification x rp.id given or not x credProps) through the real Client, each followed by an excluded registration and 6 authentications with different allow lists; only what this property says is looked at", _what))
+    _SWEEPS.setdefault(_pid, []).append(("client-ceremonies", _pid, "192 registrations (2 store capabilities x 4 residentKey x requireResidentKey x 3 userVerification x rp.id given or not x credProps) through the real Client, each followed by an excluded registration and 7 authentications with different allow lists; only what this property says is looked at", _what))
 for _pid, _l in _SWEEPS.items():
     PROPS[_pid].setdefault("enumerations", [])
     for (_e, _a, _b, _t) in _l:
